@@ -8,6 +8,7 @@ package time // import "go.starlark.net/lib/time"
 import (
 	"errors"
 	"fmt"
+	"math"
 	"sort"
 	"time"
 
@@ -326,7 +327,11 @@ func (d Duration) Binary(op syntax.Token, y starlark.Value, side starlark.Side) 
 			if !ok {
 				return nil, fmt.Errorf("int value out of range (want signed 64-bit value)")
 			}
-			return d * Duration(i), nil
+			r := d * Duration(i)
+			if i != 0 && (r/Duration(i) != d || (i == -1 && d == math.MinInt64)) {
+				return nil, fmt.Errorf("duration out of range: %s * %d", d, i)
+			}
+			return r, nil
 		}
 	}
 
